@@ -333,23 +333,9 @@ func (m *MmsTables) buildFullCompactPlan(n int64, toLevel uint16) []*CompactGrou
 			continue
 		}
 
-		builder.Init(k, &v.closing, v.Len())
-		for _, f := range v.files {
-			if m.isClosed() || m.isCompMergeStopped() {
-				return nil
-			}
-			if f.(*tsspFile).ref == 0 {
-				panic("file closed")
-			}
-
-			name := f.Path()
-			if tmpFileSuffix == name[len(name)-len(tmpFileSuffix):] {
-				continue
-			}
-
-			if !builder.AddFile(f) {
-				return nil
-			}
+		// ReplaceFiles / AddBothTSSPFiles / deleteFile change v.files under v.lock: read it under the lock
+		if !m.addFilesToFullCompactPlan(builder, k, v) {
+			return nil
 		}
 
 		builder.SwitchGroup()
@@ -359,6 +345,32 @@ func (m *MmsTables) buildFullCompactPlan(n int64, toLevel uint16) []*CompactGrou
 	}
 
 	return builder.groups
+}
+
+// addFilesToFullCompactPlan puts the files of one measurement into the plan; false: give up (closed / stopped / limit)
+func (m *MmsTables) addFilesToFullCompactPlan(builder *CompactGroupBuilder, name string, v *TSSPFiles) bool {
+	v.lock.RLock()
+	defer v.lock.RUnlock()
+
+	builder.Init(name, &v.closing, v.Len())
+	for _, f := range v.files {
+		if m.isClosed() || m.isCompMergeStopped() {
+			return false
+		}
+		if atomic.LoadInt32(&f.(*tsspFile).ref) == 0 {
+			panic("file closed")
+		}
+
+		name := f.Path()
+		if tmpFileSuffix == name[len(name)-len(tmpFileSuffix):] {
+			continue
+		}
+
+		if !builder.AddFile(f) {
+			return false
+		}
+	}
+	return true
 }
 
 func (m *MmsTables) SetAddFunc(addFunc func(int64)) {
